@@ -54,6 +54,13 @@ SKELETONS = [
     dict(name="id-zero-terminals", text="C[>0]{[>0][<0]CC(C[>|0|])[>0]; [<]Cl, [<0]I[<0]}|gauss(60,5)|Br", closed=True),
     dict(name="explicit-hydrogen-unit", text="N{[<][<]C([H])(C)[>][>]}|gauss(60,5)|O", closed=True),
     dict(name="explicit-hydrogen-before-descriptor-atom", text="N{[<][<]C([H])CO[>][>]}|gauss(60,5)|F", closed=True, sigtag="explicit-hydrogen-before-descriptor-atom"),
+    dict(name="twin-units-by-weight", text="{[][<]CC[>], [<|2|]CC[>]; [<][H], [>]O[]}|gauss(50,5)|", closed=True),
+    dict(name="ring-bond-symbol-before-digit", text="{[][$]CC([$])C=1CCCCC1; [$][H][]}|gauss(100,5)|", closed=True, N=(1, 2)),
+    dict(name="same-fragment-other-connectivity", text="C(C)(O)C{[$][$]CC[$][$]}|gauss(50,5)|CC(O)C", closed=True),
+    dict(name="dollar-token-two-fitting", text="F{[$][$]CC[$][$]}|gauss(50,5)|[$|1|]C(Cl)C(Br)[$|3|]", closed=False, N=(1, 2)),
+    dict(name="prefix-ending-in-branch", text="CC(C){[>][<]CC[>][<]}|gauss(50,5)|[H]", closed=True),
+    # (not 'closed': the list lets the prefix bond an end group directly, so that the object contributes no repeat unit at all)
+    dict(name="left-terminal-list-with-endgroup-entry", text="CC{[$|1 1 2|][$]CC[$]; [$]O[]}|gauss(50,5)|", closed=False),
     dict(name="open-right-end", text="N{[<][<]CC[>][>]}|gauss(50,5)|", closed=False),
     dict(name="zero-weight-unit", text="N{[<][<]CC[>], [<|0|]CO[>|0|][>]}|gauss(50,5)|O", closed=True),
 ]
@@ -635,6 +642,15 @@ class Oracle:
             sane = False
         P.check("C05", sane, "generated molecule passes sanitisation")
         P.check("C05", abs(res.weight - total_mass) < 1e-6, "heavy-atom mass equals the sum of the residue masses")
+        if sane:
+            # the SMILES accessor denotes the molecule of the mol accessor (same atoms, isotopes and charges included)
+            try:
+                via_smiles = Chem.MolFromSmiles(res.smiles)
+                same_mol = via_smiles is not None and Chem.MolToSmiles(via_smiles) == Chem.MolToSmiles(Chem.RemoveHs(smol)) or (
+                    via_smiles is not None and Chem.MolToSmiles(via_smiles) == Chem.MolToSmiles(smol))
+            except Exception:
+                same_mol = False
+            P.check("C05", same_mol, "the SMILES of the molecule denotes the molecule (elements, isotopes, charges)")
         # hydrogen counts: compare with the token parsed with dummy atoms in place of descriptors
         if sane and len(res.bond_descriptors) == 0:
             okh = True
@@ -659,7 +675,9 @@ class Oracle:
             elem_of = [self.tok_elem.get(id(tok), (None, None)) for tok, _, _ in residues]
             okall = True
             for ei, el in enumerate(self.elements):
-                cnt = sum(1 for e, k in elem_of if e == ei and k in ("K", "R"))
+                # (a stochastic object is present if any of its tokens is: on an ill-posed notation a list may bond an end group
+                # where a repeat unit was due)
+                cnt = sum(1 for e, k in elem_of if e == ei)
                 if cnt < 1 or (not isinstance(el, self.Stochastic) and cnt != 1):
                     okall = False
             P.check("C06", okall, "a molecule returned without open descriptor contains every written element")
